@@ -1,9 +1,11 @@
 /- Driver ops for Minesweeper.  Ops: minesweeper.step, minesweeper.state, minesweeper.judge,
-   minesweeper.instance, minesweeper.episode -/
+   minesweeper.instance, minesweeper.episode, minesweeper.spec -/
 import JumanjiModel.Bridge.Json
 import JumanjiModel.Env.Minesweeper.Model
 import JumanjiModel.Env.Minesweeper.Bounds
 import JumanjiModel.Bridge.PuzzleBounds
+import JumanjiModel.Bridge.Spec
+import JumanjiModel.Env.Minesweeper.SpecLemmas
 open Lean Jb
 
 namespace Jb.Minesweeper
@@ -28,6 +30,9 @@ def jObs (o : Obs) : Json :=
 def getObs (j : Json) : Except String Obs := do
   pure { board := ← fIntGrid j "board", mask := ← fBoolGrid j "action_mask",
          numMines := ← fInt j "num_mines", stepCount := ← fInt j "step_count" }
+
+def jNValue (v : Sp.NValue) : Json := jList (fun (e : String × Sp.Arr) => jObj [("key", jStr e.1), ("value", SpecOps.jArr e.2)]) v
+def jNested (s : Sp.Nested) : Json := jList (fun (e : String × Sp.Leaf) => jObj [("key", jStr e.1), ("spec", SpecOps.jLeaf e.2)]) s
 
 def getAction (j : Json) : Except String (Int × Int) := do
   match ← getList getInt j with
@@ -54,6 +59,11 @@ def opState : Op := fun j => do
   pure (jObj [("mask", jBools (List.flatten (observeL1 cfg s).mask)),
               ("legal", jBools (co.map (fun p => decide (legal s p.1 p.2)))),
               ("obs", jObs (observe s)),
+              -- wave 3: the timestep the model's reset builds for this state (L1 observation), the L1 observation as spec-level
+              -- arrays (shape, dtype, data) and whether the model's `obsSpec cfg` accepts it
+              ("reset_ts", jTimeStep jObs (resetTimeStep cfg s)),
+              ("nvalue", jNValue (toNValue (observeL1 cfg s))),
+              ("obs_in_spec", jBool ((obsSpec cfg).valid (toNValue (observeL1 cfg s)))),
               ("consistent", jBool (decide (Consistent cfg s))),
               ("objective", jRat (objective cfg s))])
 
@@ -110,8 +120,19 @@ def opBounds : Op := fun j => do
   let cfg ← getCfg (← field j "cfg")
   pure (jBoundsTable (obsBounds cfg))
 
+/-- {cfg} → the specs of the model (`obsSpec cfg`, `actionSpec cfg`, reward and discount spec) in the `speclib.leaf_json`
+    layout, and `generate_value()` of the action spec -/
+def opSpec : Op := fun j => do
+  let cfg ← getCfg (← field j "cfg")
+  pure (jObj [("observation_spec", jNested (obsSpec cfg)), ("action_spec", SpecOps.jLeaf (actionSpec cfg)),
+              ("reward_spec", SpecOps.jLeaf PzS.rewardSpec), ("discount_spec", SpecOps.jLeaf PzS.discountSpec),
+              ("action_spec_wf", jBool (actionSpec cfg).WF),
+              ("generate_value", SpecOps.jArr (actionSpec cfg).generate),
+              ("generate_value_legal", jBool ((actionSpec cfg).generate == actionArr 0 0 &&
+                                               decide (0 < cfg.numRows ∧ 0 < cfg.numCols)))])
+
 def ops : List (String × Op) :=
-  [("minesweeper.step", opStep), ("minesweeper.state", opState), ("minesweeper.judge", opJudge),
+  [("minesweeper.spec", opSpec), ("minesweeper.step", opStep), ("minesweeper.state", opState), ("minesweeper.judge", opJudge),
    ("minesweeper.instance", opInstance), ("minesweeper.episode", opEpisode),
    ("minesweeper.bounds", opBounds)]
 end Jb.Minesweeper
